@@ -171,6 +171,26 @@ def run(ck):
 
         asmk.k_check(ck, progs, impl, mod, icases, syms=True)
     batch(progs, expect, incbin)
+    # images of several banks (more than 64 KiB of output): deferred words and bytes far into the image land where they
+    # were placed; and an included file inherits the segment it is included in (an ADDR segment stays silent)
+    xc, xw = [], []
+    for arch in asmk.ARCHES:
+        src = ("@org 0\n@ds $8000, $e5\n@org 0\n@ds $8000, $e6\n@org $4000\nbk2:\n@dw lateW, bk2\n@db < lateB, 7\n@ds 3, lateB\n@org $4000\n@ds $8000, $e8\nbk3:\n@dw lateW + 1\n"
+               "@defn lateW, $1234\n@defn lateB, $56\n")
+        want = b"\xe5" * 0x8000 + b"\xe6" * 0x8000 + bytes([0x34, 0x12, 0x00, 0x40, 0x56, 7, 0x56, 0x56, 0x56]) + b"\xe8" * 0x8000 + bytes([0x35, 0x12])
+        xc.append(asm_case(arch, text=src)); xw.append((arch, src, want))
+        files = {"/w/main.asm": '@db 1\n@segment "ADDR"\n@org $c000\n@include "v.inc"\nvend:\n@db\n@segment "CODE"\n@org 2\n@dw vend, vb\n@include "c.inc"\n',
+                 "/w/v.inc": "va: @ds 2\nvb: @ds 3\n@align 4\n", "/w/c.inc": "@db 9\n"}
+        xc.append(asm_case(arch, files=files)); xw.append((arch, repr(files), bytes([1, 0x08, 0xc0, 0x02, 0xc0, 9])))
+    xr = [AsmResult(r) for r in run_cases(harness, xc, shards=2)]
+    ck.evaluations += len(xc)
+    for (arch, src, want), a, c in zip(xw, xr, xc):
+        ck.nontriv(c)
+        if not a.ok or a.bytes != want:
+            k = next((i for i in range(min(len(a.bytes or b""), len(want))) if a.bytes[i] != want[i]), None)
+            ck.violation("%s: %s; expected %d bytes (first difference at image offset %s): %s" % (arch, a.canon()[:60] if not a.ok else "%d bytes" % len(a.bytes), len(want), k, src[:300]),
+                         {"mode": "asm", "arch": arch, "harness_case": c[:3000], "expected": "OK " + want.hex()[:80] + "..."})
+            break
     # the known stale-@here case: a macro-like directive directly behind a statement that ends in an expression
     kn = [AsmResult(r) for r in run_cases(harness, [asm_case("z80", text='@org $100\n ld a, 5 @label { "xx" @hex @here }:\n@dw xx%s\n' % sfx) for sfx in ("102", "100")], shards=1)]
     ck.evaluations += 2
